@@ -349,3 +349,83 @@ def run(ctx):
     check_mutate(ctx)
     check_validate(ctx)
     check_pipelines(ctx)
+    check_conflict_exemption(ctx)
+
+
+# ---------------------------------------------------------------------------------------------------------------------
+# The schema check exempts entries that carry class `conflict`. That is only sound while such entries are never live:
+# the class is added together with `recycled`, and whoever removes `recycled` removes `conflict` too.
+# (added after seeded change C15: to_revived kept the conflict marker, so a revived conflict entry was live and never
+# schema-checked again)
+
+def _class_calls(body, names, cls):
+    """[(call node, receiver-root local, enclosing block id)] of calls `x.<name>(Attribute::Class, EntryClass::<cls>..)`"""
+    from .lib.hir import walk as _w
+    out = []
+
+    def visit(node, blk):
+        if isinstance(node, list):
+            for n in node:
+                visit(n, blk)
+            return
+        if not isinstance(node, dict):
+            return
+        if node.get("e") == "block":
+            blk = id(node)
+        if node.get("e") == "mcall" and node.get("name") in names and len(node.get("args", [])) >= 2:
+            t0 = tokens(node["args"][0])
+            t1 = tokens(node["args"][1])
+            if has_token(t0, "def", "Attribute::Class") and has_token(t1, "def", "EntryClass::" + cls):
+                r = unwrap(node["recv"])
+                while isinstance(r, dict) and r.get("e") in ("field", "mcall"):
+                    r = unwrap(r["x"] if r.get("e") == "field" else r["recv"])
+                loc = r["res"].get("local") if isinstance(r, dict) and r.get("e") == "path" else None
+                out.append((node, loc, blk))
+        for k, v in node.items():
+            if k in ("line", "exp"):
+                continue
+            if isinstance(v, (dict, list)):
+                visit(v, blk)
+    visit(body, None)
+    return out
+
+
+def check_conflict_exemption(ctx):
+    R = "K4-conflict-exempt-only-while-recycled"
+    F = ctx.facts
+    val = ctx.fn1(LIB, r"^kanidmd_lib::entry::Entry::<entry::EntryValid, STATE>::validate$")
+    exempt = any(n.get("e") == "mcall" and n.get("name") == "attribute_equality" and has_token(tokens(n), "def", "EntryClass::Conflict")
+                 for n in walk(val["body"]))
+    if not exempt:
+        ctx.ok(R, val["fn"], "no-conflict-exemption", "the schema check no longer exempts conflict entries: nothing to require")
+        return
+    ADD = ("add_ava", "add_ava_int", "add_ava_if_not_exist", "set_ava")
+    REM = ("remove_ava", "remove_ava_int", "purge_ava_value")
+    n_add = n_rem = 0
+    for name in F.fns_mentioning(LIB, "EntryClass::Conflict"):
+        f = F.fn(LIB, name)
+        if f is None or f.get("kind") not in ("fn", "assocfn"):
+            continue
+        adds_c = _class_calls(f["body"], ADD, "Conflict")
+        adds_r = _class_calls(f["body"], ADD, "Recycled")
+        for (c, loc, blk) in adds_c:
+            n_add += 1
+            ok = any(l2 == loc and b2 == blk for (_, l2, b2) in adds_r)
+            ctx.check(ok, R, name, "conflict-added-with-recycled", "class conflict is added together with class recycled",
+                      f"{short(name, 2)} marks an entry `conflict` without marking it `recycled` in the same step: the entry is live and, because the schema "
+                      "check exempts conflict entries, is stored and later modified without ever being schema-checked", file=f["file"], line=c.get("line"))
+    for name in F.fns_mentioning(LIB, "EntryClass::Recycled"):
+        f = F.fn(LIB, name)
+        if f is None or f.get("kind") not in ("fn", "assocfn"):
+            continue
+        rem_r = _class_calls(f["body"], REM, "Recycled")
+        rem_c = _class_calls(f["body"], REM, "Conflict")
+        for (c, loc, blk) in rem_r:
+            n_rem += 1
+            ok = any(l2 == loc and b2 == blk for (_, l2, b2) in rem_c)
+            ctx.check(ok, R, name, "recycled-removed-with-conflict", "whoever removes class recycled removes class conflict too",
+                      f"{short(name, 2)} takes an entry out of the recycle bin (removes class `recycled`) but leaves class `conflict` on it: the revived "
+                      "entry is live, and the schema check skips conflict entries, so an entry that failed validation during replication becomes a live, "
+                      "never-validated entry", file=f["file"], line=c.get("line"))
+    ctx.floor(R, "sites adding class conflict", n_add, 3)
+    ctx.floor(R, "sites removing class recycled", n_rem, 1)
